@@ -141,6 +141,47 @@ def judge_history(opts):
     return txt, None, None
 
 
+def judge_computed_arrays(expand):
+    """array attributes computed at generation time (cat / zeros / ones / diagonal products): every element at its own position,
+    in the Variable object and in the metadata function"""
+    import casadi as ca
+    import pymoca.parser
+    from pymoca.backends.casadi.generator import generate
+    from pymoca.backends.casadi._options import _merge_default_options
+    txt = ("model K Real z[2,2](min = cat(1, zeros(1,2), ones(1,2))); Real w[3,2](start = diagonal({1,2,3}) * ones(3,2)); "
+           "Integer k[2,3](max = diagonal({5,7}) * ones(2,3)); equation z = fill(1.0, 2, 2); w = fill(2.0, 3, 2); k = fill(1, 2, 3); end K;")
+    want = {"z": ("min", np.array([[0.0, 0.0], [1.0, 1.0]])), "w": ("start", np.array([[1.0, 1.0], [2.0, 2.0], [3.0, 3.0]])),
+            "k": ("max", np.array([[5.0, 5.0, 5.0], [7.0, 7.0, 7.0]]))}
+    o = _merge_default_options({"expand_vectors": True} if expand else {})
+    m = generate(pymoca.parser.parse(txt), "K", o)
+    if expand:
+        m.simplify(o)
+    blk = np.array(m.variable_metadata_function(ca.DM())[1])
+    r = 0
+    for v in m.alg_states:
+        nm = v.symbol.name()
+        base = nm.split("[")[0]
+        a, W = want[base]
+        if expand:
+            idx = tuple(int(t) - 1 for t in nm[nm.index("[") + 1:-1].split(","))
+            val = getattr(v, a)
+            val = float(ca.DM(val)) if not isinstance(val, (int, float)) else float(val)
+            if val != W[idx] or blk[r, ATTR_COL[a]] != W[idx]:
+                return txt, "expand_vectors: %s.%s = %r, metadata row %r" % (nm, a, val, blk[r, ATTR_COL[a]]), "%r" % W[idx]
+            r += 1
+            continue
+        val = getattr(v, a)
+        M = np.array(val, dtype=float) if isinstance(val, list) else np.array(ca.DM(val))
+        if M.shape != W.shape or not (M == W).all():
+            return txt, "%s.%s of the Variable object is %s" % (nm, a, M.tolist()), "%s" % W.tolist()
+        n_ = v.symbol.numel()
+        G = blk[r:r + n_, ATTR_COL[a]].reshape(W.shape, order="F")
+        if not (G == W).all():
+            return txt, "metadata function reports %s.%s = %s" % (nm, a, G.tolist()), "%s" % W.tolist()
+        r += n_
+    return txt, None, None
+
+
 def main():
     payload = json.load(sys.stdin)
     tier, seed = payload.get("tier", "quick"), int(payload.get("seed", 0) or 0)
@@ -170,6 +211,14 @@ def main():
             txt, obs, exp = "history model", "%s: %s" % (type(e).__name__, str(e)[:160]), "a model"
         if obs:
             failures.append({"class": "metadata", "input": txt, "observed": obs, "expected": exp})
+    for expand in (False, True):
+        n += 1
+        try:
+            txt, obs, exp = judge_computed_arrays(expand)
+        except BaseException as e:  # noqa
+            txt, obs, exp = "computed-array model", "%s: %s" % (type(e).__name__, str(e)[:160]), "a model"
+        if obs:
+            failures.append({"class": "metadata", "input": txt, "observed": obs, "expected": exp})
     for a in cases:
         n += 1
         try:
@@ -182,7 +231,7 @@ def main():
                 break
     if payload.get("mode") == "bounded":
         print(json.dumps({"performed": True, "cases": n, "distinct_nontrivial": n, "failures": failures,
-                          "rule": "attributes of scalar / array / input variables set to literal, affine, bilinear (p1*p2), quadratic and non-polynomial expressions of three parameters, systematically and at random (seed %d); Variable attributes and variable_metadata_function are evaluated at 3 random parameter vectors and compared with the declared expressions; defaults and Python types checked; plus histories read / simplify(options) / read, where the second read must agree with the simplified model's Variable objects" % seed,
+                          "rule": "attributes of scalar / array / input variables set to literal, affine, bilinear (p1*p2), quadratic and non-polynomial expressions of three parameters, systematically and at random (seed %d); Variable attributes and variable_metadata_function are evaluated at 3 random parameter vectors and compared with the declared expressions; defaults and Python types checked; 2-D array attributes computed at generation time (cat/zeros/ones/diagonal products) compared element by element, with and without expand_vectors; plus histories read / simplify(options) / read, where the second read must agree with the simplified model's Variable objects" % seed,
                           "bound": "%d models x 3 parameter vectors" % n}))
     else:
         f = failures[0] if failures else None
